@@ -46,6 +46,8 @@ def obligations(tier):
              clause="the poll returns the interrupt flag and does not write it (frame condition: the flag's write operations have a precondition a poll cannot meet): the request stays visible to every later poll"),
         dict(engine="verus", unit="toplevel", function="execute::loop_head", name="C07/thread/execute_loop_polls_interrupt", source="vm/src/thread.rs::OwnedContext::execute (loop body up to the dispatch on the frame state)",
              clause="every pass through the frame loop -- every call, tail call and return -- polls the interrupt flag before dispatching: requested => Err(Interrupted), not requested => the dispatch is reached"),
+        v("stack", "Stack::set_max_stack_size", "the configured stack limit is stored as given; values and frames untouched", "vm/src/stack.rs::Stack::set_max_stack_size"),
+        v("stack", "Stack::max_stack_size", "the limit read back is the one stored", "vm/src/stack.rs::Stack::max_stack_size"),
         v("stack", "ExecuteContext::exit_scope", "leaving a scope pops exactly the top frame, never a locked one", "vm/src/thread.rs::ExecuteContext::exit_scope"),
         v("compiler", "compile_primitive::or(C07)", "tail position is propagated into the right operand of `||` (so a recursive call there is a TailCall and runs in constant stack)", "vm/src/compiler.rs::compile_primitive (|| block)"),
         v("compiler", "compile_primitive::and(C07)", "tail position is propagated into the right operand of `&&`", "vm/src/compiler.rs::compile_primitive (&& block)"),
